@@ -29,7 +29,7 @@ def run_batch(exe, ncases_hint=None, stdin=None, seed=None, timeout=300, env_ext
     start = 0
     hangs = 0
     for _ in range(200):
-        rc, out, err = run_exe(exe, [str(start)], stdin=stdin, seed=seed, timeout=timeout, env_extra=env_extra, stall=max(30, timeout / 15))
+        rc, out, err = run_exe(exe, [str(start)], stdin=stdin, seed=seed, timeout=timeout, env_extra=env_extra, stall=max(120, timeout / 5))
         if rc == "timeout":
             hangs += 1
         c, o = parse_cases(out)
@@ -44,8 +44,8 @@ def run_batch(exe, ncases_hint=None, stdin=None, seed=None, timeout=300, env_ext
         m = re.findall(r"^NEXT (\d+)$", out, re.M)
         nxt = int(m[-1]) if m else None
         crashes.append((o[-1] if o else None, rc, (err or "")[-400:], nxt))
-        if nxt is None or nxt + 1 <= start or hangs >= 8:
-            break   # (after 8 hangs the remaining cases are reported as missing rather than waited for)
+        if nxt is None or nxt + 1 <= start or hangs >= 5:
+            break   # (after 5 hangs the remaining cases are reported as missing rather than waited for)
         start = nxt + 1
     return cases, order, crashes
 
